@@ -115,6 +115,30 @@ def module_obs(tier, rnd, S):
                 obs.append(Ob(f"mod.{ctx}.{mt}.s{ci}", build(g.params, body, setup=SETUP, extra_pre=g.pre),
                               f"{mt} written {'inside a project' if ip else 'as a synth'}: REF-DEC parses the stream completely (documented ids, order, terminators) and finds every common field, one CVAL per attached controller with the YAML's offset convention, 8 binding bytes per CVAL, CHNK above every CHNM",
                               group="module", shape=f"{ctx}({mt}); " + "; ".join(g.notes[:6]), symbolic=", ".join(p_[0] for p_ in g.params), timeout=300))
+    # the structural CHNK rule at its boundary: a MetaModule with all 96 user-defined controllers and a label on the LAST one writes
+    # its highest module-specific chunk number (8 + 95 = 103); the declared count must still be above it
+    for ctx in ("synth", "project"):
+        if ctx == "synth":
+            mk = "    data = save_bytes(Synth(mod))\n    ver, d = RF.decode_synth(data)"
+        else:
+            mk = "    p = Project()\n    p.attach_module(mod)\n    data = save_bytes(p)\n    d = RF.decode_project(data)['modules'][1]"
+        body = f"""
+    mod = {cls_expr('MetaModule')}()
+    mod.user_defined_controllers = 96
+    mod.user_defined[0].label = 'first'
+    mod.user_defined[94].label = 'L' + chr(c1)
+    mod.user_defined[95].label = 'last' + chr(c2)
+{mk}
+    nums = [c_['chnm'] for c_ in d['chunks']]
+    if d['chnk'] is None or not all(n_ < d['chnk'] for n_ in nums) or any(c_['chdt'] is None for c_ in d['chunks']):
+        return False
+    lab = dict((c_['chnm'], bytes(c_['chdt'])) for c_ in d['chunks'] if c_['chnm'] >= 8)
+    return sorted(lab) == [8, 102, 103] and lab[103].rstrip(b"\\0") == ('last' + chr(c2)).encode("utf8") and len(d['cvals']) == 5 + 96
+"""
+        CPX = "(1 <= {v} <= 0xD7FF or 0xE000 <= {v} <= 0x10FFFF)"
+        obs.append(Ob(f"meta.labels96.{ctx}", build([("c1", "int", CPX.format(v="c1")), ("c2", "int", CPX.format(v="c2"))] if ctx == "synth" else [("c1", "int", "c1 == 65"), ("c2", "int", "c2 == 66")], body, setup=SETUP),
+                      f"MetaModule with 96 user-defined controllers and labels on the first and the last two ({ctx}): every module-specific chunk number, including the last label's 103, is below the declared CHNK count; the label chunks carry the text",
+                      group="module", shape=f"{ctx}(MetaModule), n=96, labels at 0, 94, 95", symbolic="one code point in each of the last two labels" if ctx == "synth" else "none besides shape (labels concrete: attribute assignment slugifies them)", timeout=600))
     return obs
 
 
